@@ -51,6 +51,10 @@ def cargo_build(package="vh", features=None, no_default=False, target_subdir=Non
     if key in _built:
         return bin_path(package, target_subdir)
     cmd = ["cargo", "build", "--offline", "-q", "-p", package]
+    if not no_default and not features and not target_subdir and os.path.exists(os.path.join(HARNESS, "vh-derive", "src", "gen_types.rs")):
+        # the two harness binaries are always built together so that cargo's feature unification (and therefore the
+        # fingerprints of the shared dependencies) is the same whichever of them a check asks for
+        cmd = ["cargo", "build", "--offline", "-q", "-p", "vh", "-p", "vh-derive"]
     if features:
         cmd += ["--features", ",".join(features)]
     if no_default:
